@@ -141,7 +141,7 @@ Fixpoint gmap_mem (k : gkey) (m : list (gkey * pkg)) : bool :=
 Definition gomod_apply_replace (m : list (gkey * pkg)) (rp : gomod_replace) : list (gkey * pkg) :=
   let newp : pkg := (gr_new rp, trim_v (gr_newv rp)) in
   let targets : list gkey :=
-    if is_nil (gr_oldv rp) then map fst (filter (fun kv => bytes_eqb (fst (snd kv)) (gr_old rp)) m)
+    if is_nil (gr_oldv rp) then map fst (filter (fun kv => bytes_eqb (fst (fst kv)) (gr_old rp)) m)
     else let s := (gr_old rp, trim_v (gr_oldv rp)) in if gmap_mem s m then [s] else [] in
   fold_left (fun m' k => gmap_set k newp m') targets m.
 
@@ -188,23 +188,16 @@ Definition expected_gomod (rs : gomod_recs) : list pkg :=
 (* Go's semantics: every replace directive applies to the ORIGINAL requirements (apply_replaces), never to the
    result of another replace.  The replacement may be a required module or the left side of another directive
    (chains a=>b, b=>c; swaps a=>b, b=>a).
-   wf_gomod_base: distinct required paths; at most one replace per old path; nothing is called stdlib; the
-   resulting (name, version) pairs are pairwise different (else they are one package).
-   gomod_chain_ok (the domain D of the extractor): a directive WITHOUT a version never names, as its left side, the
-   replacement path of an EARLIER directive - the extractor matches such a directive against the already replaced
-   entries, i.e. treats the chain as transitive (known finding gomod-versionless-replace-transitive). *)
-Fixpoint gomod_chain_ok (rsl : list gomod_rrec) : bool :=
-  match rsl with
-  | [] => true
-  | r :: rest => forallb (fun r' => negb (is_nil (rr_oldv r')) || negb (bytes_eqb (rr_new r) (rr_old r'))) rest && gomod_chain_ok rest
-  end.
-Definition wf_gomod_base (rs : gomod_recs) : bool :=
+   The extractor matches a directive without a version against the original names too (the keys of its map; fix
+   of the former known finding gomod-versionless-replace-transitive).
+   wf_gomod: distinct required paths; at most one replace per old path; nothing is called stdlib; the
+   resulting (name, version) pairs are pairwise different (else they are one package). *)
+Definition wf_gomod (rs : gomod_recs) : bool :=
   let rp := map fst (gq_requires rs) in
   nodup_bytes rp && negb (bytes_mem s_stdlib rp) &&
   nodup_bytes (map rr_old (gq_replaces rs)) &&
   forallb (fun r => negb (bytes_eqb (rr_new r) s_stdlib)) (gq_replaces rs) &&
   nodup_pkgs (map (apply_replaces (gq_replaces rs)) (gq_requires rs)).
-Definition wf_gomod (rs : gomod_recs) : bool := wf_gomod_base rs && gomod_chain_ok (gq_replaces rs).
 
 (* ------------------------------------------------------------------ correspondence records *)
 (* v1: every (name, version) of the nested tree, duplicates removed; claimed for trees whose versions are
@@ -284,11 +277,3 @@ Definition gomod_case_spec_ok c :=
   | None => negb (is_panic (gmc_obs c))
   | Some rs => negb (wf_gomod rs) || same_outcome (gmc_obs c) (Ok (expected_gomod rs))
   end.
-(* the statement without the domain restriction (recognises the known finding) *)
-Definition gomod_case_full_spec_ok c :=
-  match gmc_claim c with
-  | None => true
-  | Some rs => negb (wf_gomod_base rs) || same_outcome (gmc_obs c) (Ok (expected_gomod rs))
-  end.
-Definition gomod_case_wf_outside_D c :=
-  match gmc_claim c with None => false | Some rs => wf_gomod_base rs && negb (gomod_chain_ok (gq_replaces rs)) end.
